@@ -81,6 +81,39 @@ def analyse_unit(run, u, rule_ro, per_policy):
     return mod, an
 
 
+def analyse_repo_unit(run, u, rule):
+    """the repository's own units: every operator(), thunk, handler and virtual_ptr member instantiated there."""
+    mod = irq.Module(u["path"])
+    an = eff.Analyzer(mod)
+    n = 0
+    for kind, f in callpath.generic_entries(mod):
+        d = irq.strip_ret(f.dname)
+        params = irq.param_list(d)
+        own = callpath.own_args(f, params)
+        tail = (irq.base_name(d) if params is not None else d).split(">::")[-1]
+        if kind == "virtual_ptr" and (tail.startswith("virtual_ptr") or tail.startswith("~virtual_ptr") or tail.startswith("box<") or tail.startswith("operator=")):
+            # the object under construction / destruction / assignment belongs to the calling thread
+            for k, a in enumerate(f.args):
+                if not a.get("sret"):
+                    own.add(k)
+                    break
+        e = an.run(f, own_eargs=own)
+        bad = []
+        for w in e.writes:
+            if w["kind"] == "stdcall" and any(re.search(c, w["callee"]) and all(a[0] == "global" and re.search(g, mod.gd(a[1])) for a in w["prov"]) for c, g, _ in EXEMPT):
+                continue
+            bad.append(w)
+        n += 1
+        run.instance(rule, "%s: %s %s" % (u["file"], kind, re.sub(r"yorel::yomm2::", "", d)[:140]), f.where(), ok=not bad)
+        for w in bad:
+            tgt = ", ".join(eff.fmt_prov(mod, w["prov"]))
+            fnq = irq.base_name(irq.strip_ret(w["fn"])) if irq.param_list(irq.strip_ret(w["fn"])) is not None else w["fn"]
+            fnq = re.sub(r"<.*", "", fnq)
+            run.violation(rule, "%s|%s|repo" % (fnq[:160], w["kind"]), "non-atomic write to shared memory on the call path (unit %s): %s%s -> %s (in %s; entry %s)" % (
+                u["file"], w["kind"], (" " + w.get("callee", "")[:100]) if w.get("callee") else "", tgt[:200], w["fn"][:140], f.dname[:100]), w["where"])
+    return n
+
+
 def update_writes(mod, an, policy):
     """globals written (or passed to a mutating std function) by update<policy>()."""
     fs = [f for f in mod.funcs.values() if f.body and f.dname.startswith("yw_upd::upd_%s(" % policy)]
@@ -137,6 +170,12 @@ def check(run):
             if nd:
                 w, e = update_writes(mod, an, u["policy"])
                 upd[u["policy"]] = w
+    if run.tier == "thorough":
+        n_repo = 0
+        rus = callpath.repo_units(run)
+        for u in rus:
+            n_repo += analyse_repo_unit(run, u, r1)
+        run.units.append({"unit": "repository units (compile database)", "count": len(rus), "entries": n_repo})
     for a in pols:
         for b in pols:
             if a == b:
